@@ -173,6 +173,13 @@ class Engine:
     def fresh(self, kind, name="v"):
         return Z(kind, z3.FreshConst(self.kind_sort(kind), name))
 
+    def assert_label(self, node):
+        """a stable name for an assert statement: its ordinal among the asserts met so far in this engine (not its text)"""
+        tab = self._solver_cache.setdefault("asserts", {})
+        if id(node) not in tab:
+            tab[id(node)] = f"#{len(tab) + 1}"
+        return tab[id(node)]
+
     def oblige(self, st, clause, goal, **meta):
         st.obl.append({"clause": clause, "pc": list(st.pc), "goal": goal, "path": list(st.path), "meta": meta})
 
